@@ -79,6 +79,18 @@ def stream_mutants(rng, base, key, limit):
         for nc in (0, 2 ** 63, 2 ** 64 - 1, 2 ** 63 - 1):
             e = list(evs); e[k] = (nc, m, p, j)
             put("clock=%d" % nc, obs.encode_stream(e))
+    # an event without any payload right after a jumbo event, for every event code that
+    # reads a payload (state left over from the previous event must not matter)
+    models = [m_ for m_ in "V6" if m_ in base["enabled"]]
+    codes = [mc + "Yc" for mc in models] + [m_ for m_ in sorted(c12.SIZE_CHECKED) if m_[0] in base["enabled"] or m_[0] == "O"]
+    jpos = [k for k, e in enumerate(evs) if e[3]]
+    for k in jpos[:4]:
+        for code in codes:
+            e = list(evs[:k + 1]) + [(evs[k][0], code, b"", False)] + list(evs[k + 1:])
+            put("bare-after-jumbo:%s" % code, obs.encode_stream(e))
+            # the same with payload-less events of another kind in between
+            e = list(evs[:k + 1]) + [(evs[k][0], "OB.", b"", False), (evs[k][0], code, b"", False)] + list(evs[k + 1:])
+            put("bare-after-jumbo+gap:%s" % code, obs.encode_stream(e))
     # index and id fields at the edges of what the metadata declares
     loom = [l for l in base["desc"]["looms"] if l["name"] == key[0]][0]
     ncpus = len(loom["cpus"])
